@@ -73,7 +73,7 @@ func genC37(g *Gen) {
 			prod, per, mode, closeAt, closeDl, hdl, g.R.U64()>>1)
 	}
 	directed := func() {
-		// the two confirmed windows and their close-free controls, several sizes
+		// the repaired windows (drain window, submit select) and their close-free controls, several sizes
 		for i := 0; i < 4; i++ {
 			emit("mb", "wc", 0, 1+i%2, 4, 1+i%3, 1+i%2, 0, 1, 1+i, "try", 0, 0, 0)
 			emit("mb", "wn", 0, 1+i%2, 4, 1+i%3, 1+i%2, 0, 1, 1+i, "try", 0, 0, 0)
